@@ -170,6 +170,26 @@ theorem api_only_allocates (w w' : World) (op : Op) (hop : op.isUserWrite = fals
     (repeat' split at hs) <;> (first | cases hs | skip) <;> simp only <;>
     (refine ⟨?_, ⟨_, rfl⟩⟩) <;> ext_facts <;> ext_chain
 
+private theorem deep_of_dict {m : Mode} {own : Bool} {n : Nat} {h : Heap} {a : Addr} {o : Bool}
+    {kvs : List (Key × Val)} {h1 : Heap} {v' : Val} (hg : h[a]? = some (.dict o kvs))
+    (hd : deep m own n h (.ref a) = .ok (h1, v')) :
+    ∃ j kvs', v' = .ref j ∧ h1[j]? = some (.dict own kvs') := by
+  cases n with
+  | zero => simp [deep] at hd
+  | succ n =>
+    simp only [deep, hg] at hd
+    split at hd
+    · cases hd
+    · rename_i h2 kvs' _
+      simp at hd
+      obtain ⟨rfl, rfl⟩ := hd
+      exact ⟨h2.length, kvs', rfl, by simp⟩
+
+private theorem lt_length_of_get {h : Heap} {a : Nat} {o : Obj} (hg : h[a]? = some o) : a < h.length := by
+  rcases Nat.lt_or_ge a h.length with h1 | h1
+  · exact h1
+  · rw [List.getElem?_eq_none h1] at hg; cases hg
+
 /-! ## the separation invariant
 
 `Obj.dict`'s ghost flag says whether a dict was allocated as (part of) a FrozenDict's `_dict`.  The
@@ -186,15 +206,18 @@ def UserVal (h : Heap) : Val → Prop
   | .leaf _ => True
   | .ref a => isUser h a ∨ isFrozen h a
 
-/-- values a FrozenDict's inner dicts may contain -/
+/-- values a FrozenDict's inner dicts may contain: leaves, owned dicts, and FrozenDict *objects*
+(`tree_unflatten` stores its children as they are, so a FrozenDict child stays a FrozenDict inside `_dict`) -/
 def OwnedVal (h : Heap) : Val → Prop
   | .leaf _ => True
-  | .ref a => isOwned h a
+  | .ref a => isOwned h a ∨ isFrozen h a
 
 structure HeapInv (h : Heap) : Prop where
   frozen_inner : ∀ (f i : Addr), h[f]? = some (Obj.frozen i) → isOwned h i
   owned_closed : ∀ (a : Addr) (kvs : List (Key × Val)), h[a]? = some (Obj.dict true kvs) → ∀ p ∈ kvs, OwnedVal h p.2
   user_closed : ∀ (a : Addr) (kvs : List (Key × Val)), h[a]? = some (Obj.dict false kvs) → ∀ p ∈ kvs, UserVal h p.2
+  /-- a FrozenDict object is allocated after its `_dict` -/
+  frozen_down : ∀ (f i : Nat), h[f]? = some (Obj.frozen i) → i < f
   /-- a dict has distinct keys -/
   keys_nodup : ∀ (a : Addr) (o : Bool) (kvs : List (Key × Val)), h[a]? = some (Obj.dict o kvs) → (kvs.map (·.1)).Nodup
   /-- owned dicts are built bottom-up: they only point to older objects (so a FrozenDict is never cyclic) -/
@@ -223,7 +246,10 @@ private theorem UserVal.mono {h h' : Heap} (e : Ext h h') {v : Val} (hv : UserVa
 private theorem OwnedVal.mono {h h' : Heap} (e : Ext h h') {v : Val} (hv : OwnedVal h v) : OwnedVal h' v := by
   cases v with
   | leaf l => trivial
-  | ref a => obtain ⟨kvs, hk⟩ := hv; exact ⟨kvs, e.get hk⟩
+  | ref a =>
+    rcases hv with ⟨kvs, hk⟩ | ⟨i, hk⟩
+    · exact Or.inl ⟨kvs, e.get hk⟩
+    · exact Or.inr ⟨i, e.get hk⟩
 
 private theorem Cls.mono {own : Bool} {h h' : Heap} (e : Ext h h') {v : Val} (hv : Cls own h v) : Cls own h' v := by
   cases own
@@ -1937,21 +1963,6 @@ private theorem absKvs_sort {f : Val → Option Tree} : ∀ {l : List (Key × Va
     rw [h1, h2]
     exact absKvs_insert hv (ih hr)
 
-private theorem deep_of_dict {m : Mode} {own : Bool} {n : Nat} {h : Heap} {a : Addr} {o : Bool}
-    {kvs : List (Key × Val)} {h1 : Heap} {v' : Val} (hg : h[a]? = some (.dict o kvs))
-    (hd : deep m own n h (.ref a) = .ok (h1, v')) :
-    ∃ j kvs', v' = .ref j ∧ h1[j]? = some (.dict own kvs') := by
-  cases n with
-  | zero => simp [deep] at hd
-  | succ n =>
-    simp only [deep, hg] at hd
-    split at hd
-    · cases hd
-    · rename_i h2 kvs' _
-      simp at hd
-      obtain ⟨rfl, rfl⟩ := hd
-      exact ⟨h2.length, kvs', rfl, by simp⟩
-
 /-- unfolding of `absVal` at a dict object -/
 private theorem absVal_dict {fz : Bool} {k : Nat} {h : Heap} {a : Addr} {o : Bool} {kvs : List (Key × Val)}
     (hg : h[a]? = some (.dict o kvs)) :
@@ -2666,11 +2677,6 @@ private theorem depth_owned {h : Heap} (hi : HeapInv h) : ∀ (n : Nat) (a : Nat
       have hown := hi.owned_closed a kvs hg p hp
       rw [hv] at hown
       exact (ih b (by omega) hown).mono_fuel (by omega)
-
-private theorem lt_length_of_get {h : Heap} {a : Nat} {o : Obj} (hg : h[a]? = some o) : a < h.length := by
-  rcases Nat.lt_or_ge a h.length with h1 | h1
-  · exact h1
-  · rw [List.getElem?_eq_none h1] at hg; cases hg
 
 /-- under the invariant an owned value fits in the fuel `fuelOf h - 1`, a FrozenDict in `fuelOf h` -/
 private theorem depth_ownedVal {h : Heap} (hi : HeapInv h) {v : Val} (hv : OwnedVal h v) : Depth h v h.length := by
